@@ -95,6 +95,14 @@ func (ex *Exec) callInline(callee *ssa.Function, args []Value, pc *Term, st *Sta
 	st.mem = rst.mem
 	st.allocs = rst.allocs
 	st.owned = rst.owned
+	// the merged result is only used where pc holds: conjuncts of the caller's path condition are
+	// removed from the conditions of the result's ite spine (keeps e.g. weight tables free of an
+	// enclosing floating-point branch condition)
+	for i, v := range vals {
+		if t, ok := v.(*Term); ok {
+			vals[i] = stripPC(t, pc, 0)
+		}
+	}
 	switch len(vals) {
 	case 0:
 		return &TupleV{}
@@ -102,6 +110,30 @@ func (ex *Exec) callInline(callee *ssa.Function, args []Value, pc *Term, st *Sta
 		return vals[0]
 	}
 	return &TupleV{Elems: vals}
+}
+
+// stripPC simplifies the ite spine of t under the assumption that every conjunct of pc holds.
+func stripPC(t, pc *Term, depth int) *Term {
+	if pc.IsTrue() || t.Op != "ite" || depth > 40 {
+		return t
+	}
+	conj := []*Term{pc}
+	if pc.Op == "and" {
+		conj = pc.Args
+	}
+	k := t.Args[0]
+	for _, c := range conj {
+		if c.Op == "not" {
+			k = condUnder(k, c.Args[0], false)
+		} else {
+			k = condUnder(k, c, true)
+		}
+	}
+	a, b := stripPC(t.Args[1], pc, depth+1), stripPC(t.Args[2], pc, depth+1)
+	if k == t.Args[0] && a == t.Args[1] && b == t.Args[2] {
+		return t
+	}
+	return Ite(k, a, b)
 }
 
 func (ex *Exec) callModular(callee *ssa.Function, cfc *FuncContract, args []Value, pc *Term, st *State, tag string) Value {
